@@ -12,16 +12,18 @@ open P2
     after the deletion re-pulls, gets Closed from the exited actor and `return`s without a status:
     the response stream never terminates while the request half is open. -/
 theorem C12_pinned_hang :
-    run false P2.init [.arrive, .pullTurn 1, .poll, .delete, .wakeDeleted true, .closed true true] =
-      some { backlog := 0, permit := false, q := 0, g0 := 0, gp := 0, parked := 0, notif := 0, blk := 0,
+    run false false P2.init [.arrive, .pullTurn 1, .poll, .delete, .wakeDeleted true, .closed true true] =
+      some { backlog := 0, permit := false, q := 0, g0 := 0, gp := 0, parked := 0, notif := 0, blk := 0, other := 0,
              deleted := true, ended := 0, silent := 1 } := by
   decide
 
 /-- Steps of the repaired consumers (everything except the pinned silent end and the
-    environment-only `cancelQueued`). -/
+    environment-only `cancelQueued` / non-pull requests). -/
 def repairedStep : Label → Bool
   | .closed _ pinned => !pinned
   | .cancelQueued => false
+  | .otherArrive => false
+  | .otherTurn => false
   | _ => true
 
 /-- Consumers that have not yet terminated, weighted by the steps they still need. -/
@@ -29,14 +31,14 @@ def openWork (s : State) : Nat := 2 * s.notif + s.q + 2 * s.blk + s.g0 + 2 * s.g
 
 /-- Immediately after the deletion nobody is parked any more (all waiters were notified), and it
     stays that way: a consumer that polls after the deletion sees the `deleted` branch ready. -/
-theorem C12_nobody_parks (b : Bool) {s s' : State} (l : Label) (hd : s.deleted = true) (hp : s.parked = 0)
-    (hs : step b s l = some s') : s'.deleted = true ∧ s'.parked = 0 ∧ s'.silent = s.silent + (if repairedStep l then 0 else s'.silent - s.silent) := by
+theorem C12_nobody_parks (b r : Bool) {s s' : State} (l : Label) (hd : s.deleted = true) (hp : s.parked = 0)
+    (hs : step b r s l = some s') : s'.deleted = true ∧ s'.parked = 0 ∧ s'.silent = s.silent + (if repairedStep l then 0 else s'.silent - s.silent) := by
   cases l <;> simp only [step, notifyOne] at hs <;> (repeat' split at hs) <;>
     first
       | (simp at hs; done)
       | (simp only [Option.some.injEq] at hs; subst hs; simp_all [repairedStep])
 
-theorem C12_delete_wakes_all (b : Bool) {s s' : State} (hs : step b s .delete = some s') :
+theorem C12_delete_wakes_all (b r : Bool) {s s' : State} (hs : step b r s .delete = some s') :
     s'.deleted = true ∧ s'.parked = 0 ∧ s'.notif = s.notif + s.parked := by
   simp only [step] at hs
   split at hs
@@ -45,8 +47,8 @@ theorem C12_delete_wakes_all (b : Bool) {s s' : State} (hs : step b s .delete = 
 
 /-- Released: after the deletion, as long as any consumer has not terminated some consumer step
     is enabled (nobody waits for a message that can no longer arrive) … -/
-theorem C12_released_progress (b : Bool) (s : State) (hd : s.deleted = true) (hp : s.parked = 0) (hw : openWork s > 0) :
-    ∃ l, repairedStep l = true ∧ (step b s l).isSome = true := by
+theorem C12_released_progress (b r : Bool) (s : State) (hd : s.deleted = true) (hp : s.parked = 0) (hw : openWork s > 0) :
+    ∃ l, repairedStep l = true ∧ (step b r s l).isSome = true := by
   unfold openWork at hw
   by_cases h1 : s.notif > 0
   · exact ⟨.wakeDeleted false, rfl, by simp [step, hd]; omega⟩
@@ -68,8 +70,8 @@ theorem C12_released_progress (b : Bool) (s : State) (hd : s.deleted = true) (hp
     the remaining work and ends no consumer silently: every consumer terminates after at most two
     of its own steps, at zero virtual time, with an error status (`ended`) or with the messages it
     had already received. -/
-theorem C12_released_measure (b : Bool) {s s' : State} (l : Label) (hd : s.deleted = true) (hp : s.parked = 0)
-    (hl : repairedStep l = true) (hs : step b s l = some s') :
+theorem C12_released_measure (b r : Bool) {s s' : State} (l : Label) (hd : s.deleted = true) (hp : s.parked = 0)
+    (hl : repairedStep l = true) (hs : step b r s l = some s') :
     openWork s' < openWork s ∧ s'.silent = s.silent := by
   cases l <;> simp only [step, notifyOne] at hs <;> (repeat' split at hs) <;>
     first
@@ -79,16 +81,16 @@ theorem C12_released_measure (b : Bool) {s s' : State} (l : Label) (hd : s.delet
 /-- Racing requests: a request that reaches the mailbox before the actor exits is handled by a turn
     (as if ordered before the deletion); one that does not finds the mailbox closed and is answered
     with an error — in this slice, a queued pull after `delete` always has the `closed` step. -/
-theorem C12_racers (b : Bool) (s : State) (hd : s.deleted = true) (hq : s.q > 0) :
-    ∃ s', step b s (.closed false false) = some s' ∧ s'.ended = s.ended + 1 := by
+theorem C12_racers (b r : Bool) (s : State) (hd : s.deleted = true) (hq : s.q > 0) :
+    ∃ s', step b r s (.closed false false) = some s' ∧ s'.ended = s.ended + 1 := by
   have : ¬ s.q = 0 := by omega
   simp [step, hd, this]
 
 /-! ### Non-vacuity: three consumers (parked, queued, notified) are all released by one deletion -/
 example :
-    run false P2.init [.arrive, .arrive, .arrive, .pullTurn 1, .pullTurn 1, .poll, .poll, .delete,
+    run false false P2.init [.arrive, .arrive, .arrive, .pullTurn 1, .pullTurn 1, .poll, .poll, .delete,
         .wakeDeleted true, .wakeDeleted false, .closed true false, .closed false false] =
-      some { backlog := 0, permit := false, q := 0, g0 := 0, gp := 0, parked := 0, notif := 0, blk := 0,
+      some { backlog := 0, permit := false, q := 0, g0 := 0, gp := 0, parked := 0, notif := 0, blk := 0, other := 0,
              deleted := true, ended := 3, silent := 0 } := by
   decide
 
